@@ -92,6 +92,8 @@ mod mutex;
 mod once_cell;
 mod rwlock;
 mod semaphore;
+#[cfg(all(smol_rs_async_lock_verif, feature = "std"))]
+pub mod verif;
 
 pub use barrier::{Barrier, BarrierWaitResult};
 pub use mutex::{Mutex, MutexGuard, MutexGuardArc};
